@@ -165,6 +165,14 @@ func (r *Rng) weight() float64 {
 
 func weightsJSON(r *Rng, cids []string, distinct bool) J {
 	w := J{}
+	if r.chance(0.03) && len(cids) <= 8 {
+		// pairwise distinct weights that differ by less than any tolerance used anywhere (1e-6 / 1e-5)
+		base := float64(r.rangeInt(1, 3)) / 2
+		for i, j := range r.Perm(len(cids)) {
+			w[cids[i]] = base + float64(j)*3e-7
+		}
+		return w
+	}
 	used := map[float64]bool{}
 	for _, c := range cids {
 		v := r.weight()
